@@ -2,7 +2,7 @@
 import ast
 from sa.index import AnalysisError, FuncInfo
 from sa.paths import call_name
-from rules.common import txt, paths_of, loc, tests_on, strip_not, check_none_default
+from rules.common import Quiet, txt, paths_of, loc, tests_on, strip_not, check_none_default
 
 CLS = 'cacheutils.ThresholdCounter'
 SPEC = {
@@ -161,6 +161,23 @@ def run(ctx):
         cnt = [o for o in p.ops if (o.kind == 'aug' and '_count_map' in txt(o.node.target)) or
                (o.kind == 'sub_store' and '_count_map' in txt(o.val.value) and o.kind == 'sub_store')]
         ctx.ob('T9.count', add.fq, 'the key\'s count is incremented or initialised on every path', bool(cnt), loc=add.loc)
+    # the current bucket is advanced only after the compaction that closes it
+    class Inl(Quiet):
+        def inline(self, walker, op, callee, st):
+            rv = op.recv_val
+            return isinstance(rv, ast.Name) and rv.id == 'self' and callee.name.startswith('_') and not callee.name.startswith('__')
+    w3, paths3 = paths_of(prog, add, recv=ci, model=Inl(prog))
+    n_adv = 0
+    for p in paths3:
+        adv = [o for o in p.ops if o.kind == 'attr_store' and txt(o.val) == 'self._cur_bucket']
+        flt = [o for o in p.ops if o.kind == 'attr_store' and txt(o.val) == 'self._count_map']
+        if adv:
+            n_adv += 1
+            ok = bool(flt) and flt[0].seq < adv[0].seq
+            ctx.ob('T9.bucket', add.fq, 'the count map is compacted against the bucket being closed, and only then the bucket number advances',
+                   ok, loc=loc(add, adv[0].node), path=p.describe() if not ok else None)
+    if n_adv == 0:
+        ctx.unknown('T9.bucket', add.fq, 'no advance of _cur_bucket found on any path of add', add.loc)
     # compaction predicate depends on both components (searched in add and the private helpers only add reaches)
     scope = [add] + [m for nm, m in ci.members.items() if isinstance(m, FuncInfo) and nm.startswith('_') and not nm.startswith('__')
                      and owned(nm) and nm not in ('__init__',)]
